@@ -1,115 +1,544 @@
 //! C11 — analysis, emission and formatting never crash on parseable input.
 //!
-//! Generator: corpus token lists under token-level edits that still parse
-//! (ill-typed, unresolved, duplicated, partially edited programs), alone or
-//! together with a second, unmodified corpus file.  Oracle: all analyzer
-//! passes + emission (when error-free) + formatting return; a panic is a
-//! violation whose signature is the panic message (root cause).
+//! Every case is a small project (1–2 files + Veryl.toml) that is pushed
+//! through the pipelines of the *real callers* (`veryl build`/`check`,
+//! `veryl fmt`, the language server; see c11w.rs for what is mirrored and
+//! from which source file) inside a child process.  Oracle: every pipeline
+//! returns; a panic is a violation with signature
+//! `panic@<repo-relative file>:<message, digits normalised>`; a child that
+//! dies by SIGSEGV/SIGABRT/SIGBUS (stack overflow, abort) is a violation with
+//! signature `crash-signal:<stage>:<shape family>`.  A case that exceeds the
+//! time limit makes the run inconclusive (exit 2); a child that runs out of
+//! memory or is killed is counted as skipped.
+//!
+//! Sub-checks
+//!  * `finding`  reproducers of the listed findings (payload = files, toml, modes)
+//!  * `mutated`  corpus files (testcases/veryl, testcases/error, std) under
+//!    structural token-level edits that still parse — "partially edited programs"
+//!  * `shapes`   generated recursive / self-referential / limit-sized /
+//!    kind-confused / long-chain programs (c11gen.rs)
 
-use crate::front::{self, FmtOpts};
+use crate::c11gen;
+use crate::c11w::{Job, ModeResult, Reply};
+use crate::front;
 use crate::mutate;
+use std::io::{BufRead, BufReader, Read, Write};
+use std::process::{Child, ChildStdin, Command, Stdio};
+use std::sync::mpsc::{Receiver, RecvTimeoutError, channel};
+use std::sync::{Arc, Mutex};
+use std::time::Duration;
 use vcore::{CaseCfg, Ctx, Outcome, hash_str, json};
-
-thread_local! {
-    static LAST_PANIC: std::cell::RefCell<String> = const { std::cell::RefCell::new(String::new()) };
-}
-
-fn install_hook() {
-    std::panic::set_hook(Box::new(|info| {
-        let loc = info.location().map(|l| format!("{}:{}:{}", l.file(), l.line(), l.column())).unwrap_or_default();
-        // panics on nested threads (format_text) are re-raised on the case thread: keep the first site
-        let _ = LAST_PANIC.try_with(|l| *l.borrow_mut() = loc);
-    }));
-}
-
 use vgen::relayout;
 
-fn exec(files: &[(String, String)], o: &FmtOpts, with_other: bool) -> Outcome {
-    let md = front::metadata(o);
-    let text = files[0].1.clone();
-        // a panic is a violation; its signature is the source file of the
-        // panic site plus the message (root cause, stable under line shifts)
-        let r = std::panic::catch_unwind(std::panic::AssertUnwindSafe(|| {
-            let b = front::build(files, &md, true);
-            if b.is_some() {
-                let _ = front::format_text(&text, &md, "a.veryl");
+/// Address-space limit of a worker child (KiB) — a runaway allocation ends
+/// as an allocation failure in that child, not as memory pressure on the box.
+const CHILD_VMEM_KIB: u64 = 8 << 20;
+/// Cases served by one child before it is replaced (bounds leaked memory).
+const CASES_PER_CHILD: usize = 300;
+
+struct Worker {
+    child: Child,
+    stdin: ChildStdin,
+    rx: Receiver<String>,
+    stderr_tail: Arc<Mutex<String>>,
+    stderr_reader: Option<std::thread::JoinHandle<()>>,
+    served: usize,
+}
+
+impl Worker {
+    fn spawn() -> Worker {
+        let exe = std::env::current_exe().expect("current_exe");
+        let mut child = Command::new("/bin/sh")
+            .arg("-c")
+            .arg(format!("ulimit -v {CHILD_VMEM_KIB}; ulimit -c 0; exec \"$0\" c11-worker"))
+            .arg(&exe)
+            .current_dir(vcore::util::work_root())
+            .stdin(Stdio::piped())
+            .stdout(Stdio::piped())
+            .stderr(Stdio::piped())
+            .spawn()
+            .expect("spawn c11 worker");
+        let stdin = child.stdin.take().unwrap();
+        let stdout = child.stdout.take().unwrap();
+        let mut stderr = child.stderr.take().unwrap();
+        let (tx, rx) = channel();
+        std::thread::spawn(move || {
+            let mut r = BufReader::new(stdout);
+            let mut line = String::new();
+            loop {
+                line.clear();
+                match r.read_line(&mut line) {
+                    Ok(0) | Err(_) => break,
+                    Ok(_) => {
+                        if tx.send(line.trim_end().to_string()).is_err() {
+                            break;
+                        }
+                    }
+                }
             }
-            b
-        }));
-        let b = match r {
-            Ok(Some(b)) => b,
-            Ok(None) => return Outcome::skip("mutated text does not parse"),
-            Err(p) => {
-                let msg = p
-                    .downcast_ref::<String>()
-                    .cloned()
-                    .or_else(|| p.downcast_ref::<&str>().map(|s| s.to_string()))
-                    .unwrap_or_default();
-                let loc = LAST_PANIC.with(|l| l.borrow().clone());
-                let file = loc.split(':').next().unwrap_or("").trim_start_matches("/repo/").to_string();
-                let short: String = msg.chars().take(80).collect();
-                return Outcome::fail(
-                    format!("panic@{file}:{short}"),
-                    format!("panicked at {loc}: {msg}"),
-                    json!({"files": files, "format": o.describe()}),
-                );
+        });
+        let stderr_tail = Arc::new(Mutex::new(String::new()));
+        let tail = stderr_tail.clone();
+        let stderr_reader = std::thread::spawn(move || {
+            let mut buf = [0u8; 4096];
+            loop {
+                match stderr.read(&mut buf) {
+                    Ok(0) | Err(_) => break,
+                    Ok(n) => {
+                        let mut t = tail.lock().unwrap();
+                        t.push_str(&String::from_utf8_lossy(&buf[..n]));
+                        if t.len() > 8192 {
+                            let cut = t.len() - 4096;
+                            let mut c = cut;
+                            while !t.is_char_boundary(c) {
+                                c += 1;
+                            }
+                            *t = t[c..].to_string();
+                        }
+                    }
+                }
             }
-        };
-        let errs = b.has_error();
-        let mut classes = vec![if errs { "diagnosed".to_string() } else { "clean(emitted)".to_string() }];
-        if with_other {
-            classes.push("two_files".into());
+        });
+        Worker {
+            child,
+            stdin,
+            rx,
+            stderr_tail,
+            stderr_reader: Some(stderr_reader),
+            served: 0,
         }
-        let codes: std::collections::BTreeSet<&str> = b.diags.iter().filter(|x| x.is_error).map(|x| x.code.as_str()).collect();
-        for c in codes.iter().take(3) {
-            classes.push(format!("err:{c}"));
+    }
+
+    fn kill(mut self) {
+        let _ = self.child.kill();
+        let _ = self.child.wait();
+    }
+}
+
+impl Drop for Worker {
+    fn drop(&mut self) {
+        let _ = self.child.kill();
+        let _ = self.child.wait();
+    }
+}
+
+thread_local! {
+    static WORKER: std::cell::RefCell<Option<Worker>> = const { std::cell::RefCell::new(None) };
+}
+
+pub enum Ran {
+    Reply(Reply),
+    /// the child died: (mode, stage, signal, exit code, tail of stderr)
+    Died {
+        mode: String,
+        stage: String,
+        signal: Option<i32>,
+        code: Option<i32>,
+        stderr: String,
+    },
+    TimedOut {
+        mode: String,
+        stage: String,
+    },
+}
+
+/// CPU seconds (user + system) consumed so far by process `pid`.
+fn cpu_seconds(pid: u32) -> f64 {
+    let Ok(t) = std::fs::read_to_string(format!("/proc/{pid}/stat")) else {
+        return 0.0;
+    };
+    let Some(k) = t.rfind(')') else { return 0.0 };
+    let f: Vec<&str> = t[k + 1..].split_whitespace().collect();
+    // fields 14 and 15 of proc(5) stat = utime, stime in clock ticks (USER_HZ = 100 on Linux)
+    let ticks = |i: usize| f.get(i).and_then(|x| x.parse::<f64>().ok()).unwrap_or(0.0);
+    (ticks(11) + ticks(12)) / 100.0
+}
+
+/// Run one job in this thread's worker child (`timeout` = CPU seconds of the child).
+pub fn run_job(job: &Job, timeout: Duration) -> Ran {
+    WORKER.with(|w| {
+        let mut slot = w.borrow_mut();
+        if slot.as_ref().map(|x| x.served >= CASES_PER_CHILD).unwrap_or(false) {
+            slot.take();
         }
-        Outcome::pass(hash_str(&text), errs, classes, text)
+        if slot.is_none() {
+            *slot = Some(Worker::spawn());
+        }
+        let wk = slot.as_mut().unwrap();
+        wk.served += 1;
+        wk.stderr_tail.lock().unwrap().clear();
+        let line = serde_json::to_string(job).unwrap();
+        let sent = wk.stdin.write_all(line.as_bytes()).and_then(|_| wk.stdin.write_all(b"\n")).and_then(|_| wk.stdin.flush());
+        let mut mode = String::new();
+        let mut stage = String::new();
+        // The limit is on the CPU time the child spends on this job (robust on a loaded
+        // machine); wall time only backs it up at 10x.
+        let pid = wk.child.id();
+        let cpu0 = cpu_seconds(pid);
+        let deadline = std::time::Instant::now() + timeout * 10;
+        let mut dead = sent.is_err();
+        while !dead {
+            match wk.rx.recv_timeout(Duration::from_millis(500)) {
+                Ok(l) => {
+                    if let Some(s) = l.strip_prefix("S ") {
+                        stage = s.to_string();
+                    } else if let Some(m) = l.strip_prefix("M ") {
+                        mode = m.to_string();
+                        stage.clear();
+                    } else if let Some(r) = l.strip_prefix("R ") {
+                        return match serde_json::from_str::<Reply>(r) {
+                            Ok(r) => Ran::Reply(r),
+                            Err(_) => Ran::Reply(Reply::default()),
+                        };
+                    }
+                }
+                Err(RecvTimeoutError::Timeout) => {
+                    let used = cpu_seconds(pid) - cpu0;
+                    if used > timeout.as_secs_f64() || std::time::Instant::now() > deadline {
+                        let wk = slot.take().unwrap();
+                        wk.kill();
+                        return Ran::TimedOut { mode, stage };
+                    }
+                }
+                Err(RecvTimeoutError::Disconnected) => dead = true,
+            }
+        }
+        // the child is gone: collect how it died
+        let mut wk = slot.take().unwrap();
+        let status = wk.child.wait().ok();
+        // the child is dead, so its stderr pipe is at EOF: wait for the reader to have drained it
+        if let Some(h) = wk.stderr_reader.take() {
+            let _ = h.join();
+        }
+        let stderr = wk.stderr_tail.lock().unwrap().clone();
+        use std::os::unix::process::ExitStatusExt;
+        Ran::Died {
+            mode,
+            stage,
+            signal: status.and_then(|s| s.signal()),
+            code: status.and_then(|s| s.code()),
+            stderr,
+        }
+    })
+}
+
+/// `panic@<file>:<message>`: the file is repository-relative, digits in the
+/// message are normalised and anything after a quote is dropped, so the
+/// signature survives unrelated edits (line shifts) and different inputs.
+pub fn panic_signature(loc: &str, msg: &str) -> String {
+    let file = loc.split(':').next().unwrap_or("");
+    let file = match file.find("crates/") {
+        Some(k) if !file.contains("/.cargo/") && !file.contains("/rustc/") => &file[k..],
+        _ => file,
+    };
+    let mut short = String::new();
+    let mut in_digits = false;
+    for c in msg.chars() {
+        if c == '"' || c == '\n' {
+            break;
+        }
+        if c.is_ascii_digit() {
+            if !in_digits {
+                short.push('N');
+            }
+            in_digits = true;
+        } else {
+            in_digits = false;
+            short.push(c);
+        }
+        if short.chars().count() >= 80 {
+            break;
+        }
+    }
+    format!("panic@{file}:{}", short.trim_end())
+}
+
+pub struct CaseInput {
+    pub family: String,
+    pub files: Vec<(String, String)>,
+    pub toml: String,
+    pub modes: Vec<String>,
+    pub classes: Vec<String>,
+    /// recursion / limit shape (non-trivial by construction)
+    pub shaped: bool,
+    /// generator variant, for the skip histogram
+    pub tag: String,
+    /// 0 = the tier's limit
+    pub timeout_s: u64,
+}
+
+pub const DEFAULT_TOML: &str = "[project]\nname = \"prj\"\nversion = \"0.1.0\"\n[build]\nsources = [\"src\"]\ntarget = {type = \"directory\", path = \"target\"}\nexclude_std = true\n";
+
+/// CPU-time limit of one case.
+fn timeout(ctx: &Ctx) -> Duration {
+    if let Some(t) = std::env::var("C11_TIMEOUT_S").ok().and_then(|t| t.parse().ok()) {
+        return Duration::from_secs(t); // development aid
+    }
+    Duration::from_secs(if ctx.is_quick() { 60 } else { 300 })
+}
+
+fn inconclusive(ctx: &Ctx, c: &CaseInput, mode: &str, stage: &str, limit: Duration) -> ! {
+    let dir = format!("{}/replays/{}", vcore::run::out_root(), ctx.id);
+    let _ = std::fs::create_dir_all(&dir);
+    let p = format!("{dir}/hang-{:016x}.json", hash_str(&format!("{:?}{}", c.files, c.toml)));
+    let _ = std::fs::write(
+        &p,
+        serde_json::to_string_pretty(&json!({"property": ctx.id, "sub": "finding", "choices": null,
+            "note": format!("case exceeded {} CPU-s in {mode}/{stage}", limit.as_secs()),
+            "payload": {"files": c.files, "toml": c.toml, "modes": c.modes}}))
+        .unwrap(),
+    );
+    println!(
+        "INCONCLUSIVE property={}: a {} case exceeded the {} CPU-s limit in {mode}/{stage} (saved {p})",
+        ctx.id,
+        c.family,
+        limit.as_secs()
+    );
+    use std::io::Write;
+    let _ = std::io::stdout().flush();
+    std::process::exit(2);
+}
+
+/// Decide one case.
+pub fn decide(ctx: &Ctx, c: &CaseInput) -> Outcome {
+    decide_within(ctx, c, timeout(ctx))
+}
+
+pub fn decide_within(ctx: &Ctx, c: &CaseInput, limit: Duration) -> Outcome {
+    if c.tag != "payload" && c.files.iter().any(|f| c11gen::branching_self_reference(&f.1)) {
+        return Outcome::skip("excluded by construction: a definition referring to itself twice (listed finding hang:pass2:rec_const)");
+    }
+    let job = Job {
+        modes: c.modes.clone(),
+        files: c.files.clone(),
+        toml: c.toml.clone(),
+        stack_mb: 0,
+    };
+    let input = json!({"files": c.files, "toml": c.toml, "modes": c.modes, "family": c.family});
+    match run_job(&job, limit) {
+        Ran::TimedOut { mode, stage } => {
+            // A time limit never makes a violation.  Only the reproducer of a *listed* hang
+            // (demonstrated against the real binary) reports its KNOWN-FINDING line this way.
+            let sig = format!("hang:{stage}:{}", c.family);
+            if ctx.findings().iter().any(|k| k.key == sig && k.status == "known") {
+                return Outcome::fail(sig, format!("the `{mode}` pipeline did not finish stage `{stage}` within {} CPU-s", limit.as_secs()), input);
+            }
+            inconclusive(ctx, c, &mode, &stage, limit)
+        }
+        Ran::Died {
+            mode,
+            stage,
+            signal,
+            code,
+            stderr,
+        } => {
+            let overflow = stderr.contains("has overflowed its stack");
+            let oom = stderr.contains("memory allocation of") || stderr.contains("out of memory");
+            match signal {
+                Some(6) | Some(11) | Some(7) | Some(4) if !oom => {
+                    // deep-but-finite or unbounded recursion?  (for the reader; not part of the key)
+                    let kind = if overflow {
+                        let mut big = job.clone();
+                        big.modes = vec![mode.clone()];
+                        big.stack_mb = 1024;
+                        match run_job(&big, limit) {
+                            Ran::Reply(_) => "stack overflow (finite recursion: passes on a 1 GiB stack)",
+                            Ran::Died { .. } => "stack overflow (still overflows a 1 GiB stack: unbounded recursion)",
+                            Ran::TimedOut { .. } => "stack overflow (1 GiB probe timed out)",
+                        }
+                    } else {
+                        "abort/fault without a stack-overflow message"
+                    };
+                    Outcome::fail(
+                        format!("crash-signal:{stage}:{}", c.family),
+                        format!(
+                            "the process running the `{mode}` pipeline died with signal {} in stage `{stage}`: {kind}\nstderr: {}",
+                            signal.unwrap(),
+                            stderr.trim()
+                        ),
+                        input,
+                    )
+                }
+                _ if oom => Outcome::skip(format!("worker ran out of memory in {mode}/{stage} (resource limit, inconclusive)")),
+                Some(9) => Outcome::skip(format!("worker killed (SIGKILL) in {mode}/{stage} — inconclusive")),
+                _ => Outcome::skip(format!("worker ended unexpectedly in {mode}/{stage}: code {code:?} signal {signal:?}")),
+            }
+        }
+        Ran::Reply(reply) => {
+            if reply.results.is_empty() {
+                return Outcome::skip("worker could not read the job");
+            }
+            let mut classes = c.classes.clone();
+            let mut codes = std::collections::BTreeSet::new();
+            for r in &reply.results {
+                match r.status.as_str() {
+                    "noparse" => return Outcome::skip(format!("generated text does not parse (outside the domain) [{}]", c.tag)),
+                    "badtoml" | "badmode" => return Outcome::skip("harness: bad Veryl.toml / mode"),
+                    "panic" => {
+                        return Outcome::fail(
+                            panic_signature(&r.panic_loc, &r.panic_msg),
+                            format!(
+                                "`{}` pipeline, stage `{}`: panicked at {}: {}\n  frames: {}",
+                                r.mode,
+                                r.stage,
+                                r.panic_loc,
+                                r.panic_msg,
+                                r.panic_frames.join(" <- ")
+                            ),
+                            input,
+                        );
+                    }
+                    _ => {}
+                }
+                note_result(r, &mut classes, &mut codes);
+            }
+            let nontrivial = c.shaped || codes.len() >= 2;
+            classes.push(format!("diag_codes={}", codes.len().min(4)));
+            for k in codes.iter().take(4) {
+                classes.push(format!("code:{k}"));
+            }
+            let text = c.files.iter().map(|(n, t)| format!("// ---- {n}\n{t}")).collect::<Vec<_>>().join("\n");
+            Outcome::pass(hash_str(&format!("{text}{}", c.toml)), nontrivial, classes, text)
+        }
+    }
+}
+
+fn note_result(r: &ModeResult, classes: &mut Vec<String>, codes: &mut std::collections::BTreeSet<String>) {
+    for k in r.error_codes.iter().chain(r.warning_codes.iter()) {
+        codes.insert(k.clone());
+    }
+    match r.mode.as_str() {
+        "build" | "check" => match &r.stopped_at {
+            Some(s) => classes.push(format!("cli:stopped@{s}")),
+            None => classes.push(if r.emitted > 0 { "cli:emitted".into() } else { "cli:clean".into() }),
+        },
+        "ls" => classes.push(if r.error_codes.is_empty() { "ls:no-error".into() } else { "ls:errors".into() }),
+        _ => {}
+    }
+}
+
+fn payload_case(p: &serde_json::Value) -> Option<CaseInput> {
+    let files: Vec<(String, String)> = p.get("files").and_then(|f| serde_json::from_value(f.clone()).ok())?;
+    if files.is_empty() {
+        return None;
+    }
+    let toml = p.get("toml").and_then(|t| t.as_str()).unwrap_or(DEFAULT_TOML).to_string();
+    let modes: Vec<String> = p
+        .get("modes")
+        .and_then(|m| serde_json::from_value(m.clone()).ok())
+        .unwrap_or_else(|| vec!["build".to_string(), "fmt".to_string(), "ls".to_string()]);
+    let family = p.get("family").and_then(|t| t.as_str()).unwrap_or("mutant").to_string();
+    Some(CaseInput {
+        family,
+        files,
+        toml,
+        modes,
+        classes: vec![],
+        shaped: false,
+        tag: "payload".into(),
+        timeout_s: p.get("timeout_s").and_then(|t| t.as_u64()).unwrap_or(0),
+    })
 }
 
 pub fn run(ctx: &Ctx) {
-    install_hook();
-    let corpus = front::load_corpus();
-    let pieces: Vec<_> = corpus.iter().map(|(_, s)| relayout::pieces(s)).collect();
-    // reproducers of listed findings / recorded cases
-    ctx.run_payloads("finding", |p| {
-        let files: Vec<(String, String)> = p
-            .get("files")
-            .and_then(|f| serde_json::from_value(f.clone()).ok())
-            .unwrap_or_default();
-        if files.is_empty() {
-            return Outcome::skip("payload without files");
+    let mut corpus = front::load_corpus();
+    // the 134 hand-written erroneous files: one error each; edits combine them
+    {
+        let base = std::path::Path::new(&vcore::util::repo_root()).join("testcases/error");
+        for (rel, bytes) in vcore::util::read_tree(&base) {
+            if rel.ends_with(".veryl") {
+                corpus.push((base.join(&rel).to_string_lossy().into_owned(), String::from_utf8_lossy(&bytes).into_owned()));
+            }
         }
-        let two = files.len() > 1;
-        std::thread::Builder::new()
-            .stack_size(8 << 20)
-            .spawn(move || exec(&files, &FmtOpts::default(), two))
-            .unwrap()
-            .join()
-            .unwrap()
+    }
+    let toks: Vec<Option<Vec<String>>> = corpus
+        .iter()
+        .map(|(_, s)| {
+            relayout::pieces(s).map(|p| {
+                p.iter()
+                    .filter(|p| matches!(p.kind, relayout::PieceKind::Token | relayout::PieceKind::Verbatim))
+                    .map(|p| p.text.clone())
+                    .collect()
+            })
+        })
+        .collect();
+    let usable: Vec<usize> = (0..corpus.len()).filter(|&i| toks[i].as_ref().map(|t| t.len() >= 4).unwrap_or(false)).collect();
+    ctx.note("corpus_files", json!(usable.len()));
+
+    // reproducers of listed findings / recorded cases
+    ctx.run_payloads("finding", |p| match payload_case(p) {
+        Some(c) if c.timeout_s > 0 => decide_within(ctx, &c, Duration::from_secs(c.timeout_s)),
+        Some(c) => decide(ctx, &c),
+        None => Outcome::skip("payload without files"),
     });
 
-    let n = ctx.scale(6000, 400_000);
-    ctx.run("mutated", CaseCfg::cases(n).choices(3000), |d| {
-        let i = d.below_usize(corpus.len());
-        let Some(p) = &pieces[i] else {
-            return Outcome::skip("corpus file does not tokenise");
-        };
-        let m = if d.chance(1, 5) { mutate::mutate(d, p, 2, false) } else { mutate::mutate_gentle(d, p, 4) };
-        let o = FmtOpts::draw(d);
-        let md = front::metadata(&o);
-        let mut files = vec![("a.veryl".to_string(), m.text.clone())];
-        let with_other = d.chance(1, 4);
-        if with_other {
-            let j = d.below_usize(corpus.len());
+    let quick = ctx.is_quick();
+    // development aid: C11_ONLY=mutated|shapes runs one generated sub-check
+    let only = std::env::var("C11_ONLY").ok();
+    let n = ctx.scale(4000, 300_000);
+    if only.as_deref().map(|o| o == "mutated").unwrap_or(true) {
+    ctx.run("mutated", CaseCfg::cases(n).choices(600).same_thread().timeout_s(1500), |d| {
+        let i = usable[d.below_usize(usable.len())];
+        let t = toks[i].as_ref().unwrap();
+        let donor = usable[d.below_usize(usable.len())];
+        let m = mutate::mutate_struct(d, t, toks[donor].as_ref().unwrap(), quick);
+        let toml = c11gen::draw_toml(d, &[], quick);
+        let mut files = vec![("a.veryl".to_string(), m.text)];
+        let mut classes: Vec<String> = m.ops.iter().map(|o| format!("op:{o}")).collect();
+        if d.chance(1, 6) {
+            let j = usable[d.below_usize(usable.len())];
             files.push(("b.veryl".to_string(), corpus[j].1.clone()));
+            classes.push("two_files".into());
         }
-        exec(&files, &o, with_other)
+        let c = CaseInput {
+            family: "mutant".into(),
+            files,
+            toml,
+            modes: vec!["build".into(), "fmt".into(), "ls".into()],
+            classes,
+            shaped: false,
+            tag: "mutant".into(),
+            timeout_s: 0,
+        };
+        decide(ctx, &c)
     });
-    ctx.assume("the pipeline is driven as crates/veryl's pipeline does: pass1 per file, post_pass1, pass2 per file, post_pass2, emit; formatting as `veryl fmt`");
-    ctx.assume("stack exhaustion on operator chains of >= ~20000 operands is outside this generator (cases are <= 400 tokens)");
+    }
+
+    let n = ctx.scale(3000, 200_000);
+    if only.as_deref().map(|o| o == "shapes").unwrap_or(true) {
+    ctx.run("shapes", CaseCfg::cases(n).choices(400).same_thread().timeout_s(1500), |d| {
+        let g = c11gen::shape(d, quick);
+        if let Some(why) = &g.excluded {
+            return Outcome::skip(format!("excluded by construction: {why}"));
+        }
+        let toml = c11gen::draw_toml(d, &g.build, quick);
+        let mut classes = vec![format!("family:{}", g.family), format!("variant:{}/{}", g.family, g.variant)];
+        classes.extend(g.classes.iter().cloned());
+        let c = CaseInput {
+            family: g.family.clone(),
+            files: g.files,
+            toml,
+            modes: vec!["build".into(), "fmt".into(), "ls".into()],
+            classes,
+            shaped: g.shaped,
+            tag: format!("{}/{}", g.family, g.variant),
+            timeout_s: 0,
+        };
+        decide(ctx, &c)
+    });
+    }
+
+    ctx.note("opchain_cap", json!(c11gen::OPCHAIN_CAP));
+    ctx.assume("pipelines are mirrored from crates/veryl/src/{pipeline,cmd_build,cmd_check,cmd_fmt}.rs and crates/languageserver/src/server.rs (see vc-front/src/c11w.rs): the CLI path stops at the first stage that reported an error and emits only after an error-free analysis; the language-server path runs every pass whatever was reported and formats on request; thread stacks are 8 MiB (CLI main thread) and 16 MiB (server thread)");
+    ctx.assume("not mirrored: filelist generation of `veryl build`, conversion of diagnostics to LSP messages, hover/completion/semantic-token requests, incremental (fragment cache) restores");
+    ctx.assume("a panic signature is <file>:<message> without line numbers: two different panic sites with the same message in the same source file share one key (a new site next to a listed one in the same file with the same message is not told apart)");
+    ctx.assume(&format!(
+        "flat operator chains are generated up to {} operators; longer chains overflow the analyzer's stack (listed finding, replayed from its reproducer every run)",
+        c11gen::OPCHAIN_CAP
+    ));
+    ctx.assume("a case exceeding the time limit ends the run as inconclusive (exit 2); a worker that runs out of its 8 GiB address space or is killed is counted as skipped");
     ctx.finish(
         "exploration",
-        "corpus token lists (windows of <= 400 tokens) under 1-4 generated edits that still parse, optionally next to a second corpus file, x generated [format] settings; non-trivial = the analyzer reported >= 1 error (the diagnostic path ran instead of the clean path); distinct by text hash",
+        "corpus files (testcases/veryl, testcases/error, std) under 1-4 structural token-level edits that still parse (identifier swaps, declaration deletion/duplication, same-class token substitution, direction/type keyword edits, sub-tree splices within and between files), optionally next to a second corpus file; and generated recursive / self-referential / limit-sized / kind-confused / long-chain programs x generated [build] limits and [format] settings; each pushed through the build, fmt and language-server pipelines in a child process; non-trivial = at least 2 distinct diagnostic codes were reported over the pipelines, or the case is a recursion/limit shape; distinct by text hash",
     );
 }
